@@ -193,7 +193,11 @@ def build_classes(prog, registry=None, module="sim.generated"):
             attrs["on_render_after"] = ora
         via = cd.get("tmpl_via", "template")
         if via == "get_template":
-            attrs["get_template"] = (lambda self, context, src=src: src)
+            def get_template(self, context, src=src, name=name):
+                world.fault_point("gt:" + name)
+                return src
+
+            attrs["get_template"] = get_template
         else:
             attrs["template"] = src
         if cd.get("js") is not None:
